@@ -37,6 +37,8 @@ package fasthttp
 //@   on call isValidHeaderKey -> v, sp:
 //@     nohavoc
 //@   end
+//@   ensures[initialized-when-more] more ==> s.initialized
+//@   ensures[block-end-kept] s.blockEnd == old(s.blockEnd)
 //@   ensures[within-caller-block] !old(s.initialized) && s.initialized && 0 < old(s.blockEnd) && old(s.blockEnd) <= old(len(s.b)) ==> len(s.b) == old(s.blockEnd)
 //@   ensures[complete-head-is-answered] !old(s.initialized) && 0 < old(s.blockEnd) && old(s.blockEnd) <= old(len(s.b)) ==> s.err != ErrNeedMore || old(s.err) == ErrNeedMore
 //   Without a caller-found block end (response heads, trailers) the scanner cuts the block at the first CRLFCRLF.
